@@ -130,7 +130,7 @@ NONSTR = [("dict", ((1, False, INT), (None, True, SX), ((1, 2), False, INT)), Fa
 def has_nonstr_key(t):
     if isinstance(t, tuple):
         if t and t[0] == "dict" and t[1]:
-            if any(not isinstance(k, str) or "." in k for k, _, _ in t[1]):
+            if any(not isinstance(k, str) or "." in k or k == "meta" for k, _, _ in t[1]):
                 return True
         return any(has_nonstr_key(x) for x in t)
     return False
@@ -148,6 +148,14 @@ def cases(tier):
         for r in range(0, len(keys) + 1):
             for sub in itertools.combinations(keys, r):
                 yield "mkreq", ("mkreq", d, tuple(sub))
+    # both operands declare the same key with dict-valued members (the right one relaxed / not):
+    # d2's member REPLACES d1's, it is not merged into it
+    M1 = ("dict", (("id", False, INT), ("meta", False, ("dict", (("x", False, INT), ("y", True, SX)), False))), False)
+    for rel in (True, False):
+        M2 = ("dict", (("meta", False, ("dict", (("z", False, SX),), rel)),), False)
+        yield "add", ("add", M1, M2)
+        yield "add", ("add", M2, M1)
+        yield "add", ("add", ("add", M1, M2), M1)
     # dict schemas keyed by other hashables than str (ints incl. 0, None, a tuple, bytes, "")
     for d1, d2 in itertools.permutations(NONSTR + [D[5]], 2):
         yield "add", ("add", d1, d2)
